@@ -9,6 +9,7 @@ package main
 import (
 	"bytes"
 	"fmt"
+	"io"
 	"math/rand"
 	"net/http"
 	"net/url"
@@ -16,6 +17,9 @@ import (
 	"path/filepath"
 	"strings"
 	"time"
+
+	"go.uber.org/zap"
+	"go.uber.org/zap/zapcore"
 
 	"verif/harness/vkit"
 )
@@ -41,6 +45,9 @@ type Case struct {
 	AnswLog      bool `json:"answlog_all,omitempty"`
 	Trace        bool `json:"httptrace_dump_trace,omitempty"`
 	SharedClient int  `json:"shared_client_number,omitempty"`
+	// DebugLog: the run's log level is debug (log: {level: debug}): the guns then log every
+	// request and response in full, bodies included
+	DebugLog bool `json:"log_level_debug,omitempty"`
 	Text  string `json:"file_preview,omitempty"`
 }
 
@@ -138,7 +145,12 @@ func runCase(res *vkit.Result, c Case) {
 	}
 	aggr := &vkit.MockAggregator{}
 	ec.Pools[0].Aggregator = aggr
-	rr := vkit.RunEngine(ec, nil, 60*time.Second)
+	var log *zap.Logger
+	if c.DebugLog {
+		log = zap.New(zapcore.NewCore(zapcore.NewJSONEncoder(zap.NewProductionEncoderConfig()), zapcore.AddSync(io.Discard), zapcore.DebugLevel))
+		res.Count("cases_with_debug_log", 1)
+	}
+	rr := vkit.RunEngine(ec, log, 60*time.Second)
 	if rr.Hang {
 		res.Inconclusive(false, "pool did not end within 60s")
 		return
@@ -316,6 +328,10 @@ func gen(rng *rand.Rand, i int) Case {
 		c.SharedClient = 1 + rng.Intn(3)
 	case 6:
 		c.AnswLog, c.Trace = true, rng.Intn(2) == 0
+	case 2:
+		c.DebugLog = true
+	case 4:
+		c.DebugLog, c.AnswLog = true, rng.Intn(2) == 0
 	}
 	if i%40 == 7 {
 		c.Paced, c.NoKeep, c.Preload = true, false, false
@@ -333,7 +349,12 @@ func gen(rng *rand.Rand, i int) Case {
 				c.Conf = append(c.Conf, vkit.KV{K: k, V: v})
 			}
 		}
-		// at most one spelling per header name (the option is a list; duplicates would Add)
+		if rng.Intn(4) == 0 {
+			// a name configured twice: requests that do not define it carry both values
+			c.Conf = append(c.Conf, vkit.KV{K: "X-Twice", V: "first"}, vkit.KV{K: "X-Twice", V: "second"})
+			return c
+		}
+		// otherwise at most one spelling per header name
 		seen := map[string]bool{}
 		var out []vkit.KV
 		for _, kv := range c.Conf {
@@ -378,6 +399,7 @@ func seeds() []Case {
 	out = append(out, Case{File: mk("uripost"), Gun: "http", Instances: 2, Passes: 2, AnswLog: true, Trace: true})
 	out = append(out, Case{File: mk("raw"), Gun: "http2", SSL: true, Instances: 2, Passes: 2})
 	out = append(out, Case{File: mk("jsonline"), Gun: "http", Instances: 3, Passes: 2, SharedClient: 2})
+	out = append(out, Case{File: mk("uripost"), Gun: "http", Instances: 2, Passes: 2, DebugLog: true})
 	return out
 }
 
